@@ -8,6 +8,7 @@ import (
 	"encoding/hex"
 	"errors"
 	"fmt"
+	"net"
 	"net/http"
 	"net/http/httptest"
 	"os"
@@ -700,6 +701,112 @@ func runProvFS(c map[string]any, live bool) (any, error) {
 
 
 // ---------------------------------------------------------------------------------------------------------------
+// transport-level damage of an otherwise valid answer
+
+// c18CutAt is the number of bytes of a document of n bytes that get through: "at" counted from the start (default),
+// from the middle ("rel": "mid") or back from the last byte ("rel": "end", at = 0: one byte short); always a proper
+// prefix (0 <= result < n)
+func c18CutAt(spec map[string]any, n int) int {
+	k := getInt(spec, "at")
+
+	switch getStr(spec, "rel") {
+	case "mid":
+		k += n / 2
+	case "end":
+		k = n - 1 - k
+	}
+
+	if k > n-1 {
+		k = n - 1
+	}
+
+	if k < 0 {
+		k = 0
+	}
+
+	return k
+}
+
+// c18WriteCut answers on the raw connection with status 200 and the given headers, damaged as spec["how"] says:
+//
+//	"short"    Content-Length announces the whole document, the connection is closed after k bytes of it
+//	"chunk"    chunked transfer encoding, one chunk announced for the whole document, broken off after k bytes of it
+//	"chunkend" chunked transfer encoding, a complete chunk of k bytes, then the connection is closed without the
+//	           terminating zero-length chunk
+//	"over"     Content-Length announces k bytes only, the whole document is sent (a client reads the announced k bytes)
+//
+// "rst": true closes with a reset instead of an orderly close (not for "over": the announced part must arrive).
+func c18WriteCut(conn net.Conn, status int, header http.Header, data []byte, spec map[string]any) {
+	k := c18CutAt(spec, len(data))
+
+	var buf bytes.Buffer
+
+	fmt.Fprintf(&buf, "HTTP/1.1 %d %s\r\n", status, http.StatusText(status))
+
+	for name, vals := range header {
+		switch http.CanonicalHeaderKey(name) {
+		case "Content-Length", "Transfer-Encoding", "Connection":
+			continue
+		}
+
+		for _, v := range vals {
+			fmt.Fprintf(&buf, "%s: %s\r\n", name, v)
+		}
+	}
+
+	buf.WriteString("Connection: close\r\n")
+
+	how := getStr(spec, "how")
+
+	switch how {
+	case "chunk":
+		fmt.Fprintf(&buf, "Transfer-Encoding: chunked\r\n\r\n%x\r\n", len(data))
+		buf.Write(data[:k])
+	case "chunkend":
+		buf.WriteString("Transfer-Encoding: chunked\r\n\r\n")
+
+		if k > 0 {
+			fmt.Fprintf(&buf, "%x\r\n", k)
+			buf.Write(data[:k])
+			buf.WriteString("\r\n")
+		}
+	case "over":
+		fmt.Fprintf(&buf, "Content-Length: %d\r\n\r\n", k)
+		buf.Write(data)
+	default:
+		fmt.Fprintf(&buf, "Content-Length: %d\r\n\r\n", len(data))
+		buf.Write(data[:k])
+	}
+
+	_, _ = conn.Write(buf.Bytes())
+
+	if getBool(spec, "rst") && how != "over" {
+		verifCloseNow(conn)
+
+		return
+	}
+
+	_ = conn.Close()
+}
+
+// c18ServeCut takes the connection of the request over and answers with a damaged 200 response
+func c18ServeCut(w http.ResponseWriter, status int, header http.Header, data []byte, spec map[string]any) {
+	hj, ok := w.(http.Hijacker)
+	if !ok {
+		w.WriteHeader(http.StatusInternalServerError)
+
+		return
+	}
+
+	conn, _, err := hj.Hijack()
+	if err != nil {
+		return
+	}
+
+	c18WriteCut(conn, status, header, data, spec)
+}
+
+// ---------------------------------------------------------------------------------------------------------------
 // http_endpoint
 
 // Configured endpoints: case["endpoints"] = [{"host": i, "path": "/rules", "query": "tenant=a"}, ...] (default: n
@@ -779,6 +886,16 @@ func runProvHTTP(c map[string]any) (any, error) {
 
 				w.Header().Set("Content-Type", "text/plain")
 				_, _ = w.Write(data)
+			case "cut":
+				// an otherwise valid answer (content v) of which only a part gets through
+				data, _ := env.bytesOf(map[string]any{"st": "valid", "v": spec["v"]})
+				hdr := http.Header{"Content-Type": {"application/yaml"}}
+
+				if getInt(spec, "v")%5 == 0 {
+					hdr.Set("Content-Type", "application/json")
+				}
+
+				c18ServeCut(w, http.StatusOK, hdr, data, spec)
 			case "emptyct":
 				// empty body without a known content type
 				w.Header().Set("Content-Type", "text/plain")
@@ -922,6 +1039,7 @@ var (
 	c18S3Mu     sync.Mutex
 	c18S3Stores []*c18Store
 	c18S3Fail   sync.Map // "<store>/<bucket name>" -> failure kind
+	c18S3Cut    sync.Map // "<store>/<bucket name>/<key>" -> how the answer to a GET of that object is damaged
 	c18S3Seq    int
 )
 
@@ -952,6 +1070,29 @@ func c18S3(idx int) *c18Store {
 							verifCloseNow(conn)
 						}
 					}
+
+					return
+				}
+			}
+
+			if r.Method == http.MethodGet {
+				if spec, ok := c18S3Cut.Load(fmt.Sprintf("%d%s", n, r.URL.Path)); ok {
+					// the object is there and the store answers properly, but only a part of the body gets through
+					rec := httptest.NewRecorder()
+					inner.ServeHTTP(rec, r)
+
+					if rec.Code == http.StatusOK {
+						c18ServeCut(w, rec.Code, rec.Header(), rec.Body.Bytes(), spec.(map[string]any)) //nolint:forcetypeassert
+
+						return
+					}
+
+					for name, vals := range rec.Header() {
+						w.Header()[name] = vals
+					}
+
+					w.WriteHeader(rec.Code)
+					_, _ = w.Write(rec.Body.Bytes())
 
 					return
 				}
@@ -992,6 +1133,7 @@ func runProvBlob(c map[string]any) (any, error) {
 	}
 
 	single := getBool(c, "single") && len(specs) == 1
+	cuts := []string{}
 	buckets := []*c18Bucket{}
 	created := map[string]bool{}
 	confs := []any{}
@@ -1031,6 +1173,10 @@ func runProvBlob(c map[string]any) (any, error) {
 
 			_ = b.store.backend.DeleteBucket(b.name)
 			c18S3Fail.Delete(b.failKey())
+		}
+
+		for _, k := range cuts {
+			c18S3Cut.Delete(k)
 		}
 	}()
 
@@ -1100,6 +1246,17 @@ func runProvBlob(c map[string]any) (any, error) {
 			}
 
 			spec := obj(mm["blob"])
+
+			// "cut": the blob holds the valid content v, but a GET of it breaks off mid-body for as long as this state
+			// lasts (attributes and listing are answered properly)
+			cutKey := fmt.Sprintf("%s/%s", b.failKey(), key)
+			c18S3Cut.Delete(cutKey)
+
+			if getStr(spec, "st") == "cut" {
+				c18S3Cut.Store(cutKey, spec)
+				cuts = append(cuts, cutKey)
+				spec = map[string]any{"st": "valid", "v": spec["v"]}
+			}
 
 			data, exists := env.bytesOf(spec)
 			if !exists {
